@@ -105,6 +105,7 @@ update_all_results = Contract(
     f"{F}::_update_all_results",
     params={"func": PipeFuncOutView, "r": TObj, "output_name": TOut, "all_results": DRes, "lazy": TBool},
     returns=None, modifies=("all_results",), pure=False,
+    raises=[("AssertionError", lambda S, a: S.and_(_is_multi_single(S, a), lambda: S.is_none(a.func.output_picker)))],
     ensures=_uar_ensures, loops={0: LoopSpec(_uar_inv)},
 )
 ALL = [picker, lazy_node, update_all_results]
